@@ -115,6 +115,8 @@ type FaultReader struct {
 	Once  bool
 	pos   int
 	Fired int
+	// FiredWithData: the failing Read returned n > 0 together with the error
+	FiredWithData bool
 }
 
 func (r *FaultReader) Read(p []byte) (int, error) {
@@ -161,6 +163,7 @@ func (r *FaultReader) Read(p []byte) (int, error) {
 	r.pos += n
 	if r.WithData && r.pos == lim && r.FailAt <= len(r.Data) {
 		r.Fired++
+		r.FiredWithData = true
 		return n, r.Err
 	}
 	return n, nil
